@@ -31,8 +31,8 @@ type simOut struct {
 	Limit   int
 	// IdlessDirect: some executed round's first return-directly call carried no tool-call id
 	IdlessDirect bool
-	// DupDirect: the return-directly call whose result is the answer shares its (non-empty)
-	// tool-call id with another call of the same assistant message
+	// DupDirect: the return-directly call whose result is the answer shares its tool-call id
+	// (possibly the empty one) with another call of the same assistant message
 	DupDirect bool
 }
 
@@ -118,7 +118,7 @@ func simulate(c *caseSpec, idlessQuirk bool) simOut {
 				direct = -1
 			}
 		}
-		if direct >= 0 && am.ToolCalls[direct].ID != "" {
+		if direct >= 0 {
 			for j, tc := range am.ToolCalls {
 				if j != direct && tc.ID == am.ToolCalls[direct].ID {
 					out.DupDirect = true
